@@ -57,7 +57,7 @@ checks = {
    technique="deterministic simulation: seeded schedules over generated yield points, simulated network and clock, liveness as completion within a simulated-time bound"),
  "C01": dict(level="exploration", design="4/C01",
    text="Same simulated runs as C03 (fault-free, all configurations and schedules); whenever both engines report success the output directory digest (paths, types, sizes, SHA-256) must equal the digest of the generated source tree, with nothing else present except the resume-metadata directory. Runs where a side fails are counted as outside this property. Sampling, not proof.",
-   note=TX_NOTE + " Real QUIC (transferquic/quic-go) is not exercised by this check.",
+   note=TX_NOTE + " A second part of the check (C01T2) runs the same engines over the real transferquic adapter and real quic-go on a simulated UDP path and applies the same oracle.",
    technique="deterministic simulation with seeded schedules; end-state digest comparison against the generated source tree"),
  "C17": dict(level="exploration", design="4/C17",
    text="Same simulated runs as C03; every Write of the sender is recorded with the scheduler step at which it was issued and decoded with the repository's decoders; the history must contain exactly one FileBegin and one FileEnd per file, no chunk frame twice (except the verified chunk once more), FileEnd after the last chunk write of its file, nothing after FileEnd, and every needed chunk either written or advertised as present by the receiver. Sampling over schedules, not proof.",
